@@ -101,6 +101,30 @@ def points(n, pclass, ext=3.0):
     return p
 
 
+class OutOfGrid(Exception):
+    """not in the accepted exception list of run_call: reported as pyexc-other (violation)"""
+
+
+CSZ = {"one": 1.0, "tenth": 0.1, "third": 1.0 / 3.0, "seventenths": 0.7}
+
+
+def edge_points(n, pclass, csz, nrows, ncols, cols):
+    """(n, cols) coordinates; class "edge": on the right / top edge of the extent written the way a user would (literal
+    product, accumulated sum, one ulp either side), in the bottom and the top row"""
+    ext_x, ext_y = csz * ncols, csz * nrows
+    if pclass == "edge":
+        xs = [round(ext_x, 10), ext_x, float(np.nextafter(ext_x, 0)), float(np.nextafter(round(ext_x, 10), 0)), sum([csz] * ncols)]
+        ys = [csz * 0.5, float(np.nextafter(ext_y, 0)), round(ext_y, 10) - csz * 0.5, float(np.nextafter(round(ext_y, 10), 0)), csz * 0.25]
+        p = np.array([[xs[i % 5], ys[(i + i // 5) % 5]] for i in range(max(n, 1) * 5)])[:max(n, 0) * 5]
+    else:
+        p = points(n, "fin", ext=min(ext_x, ext_y))
+    if cols == 1:
+        p = np.ascontiguousarray(p[:, :1])
+    elif cols == 3:
+        p = np.ascontiguousarray(np.column_stack([p, p[:, 0]]))
+    return p
+
+
 def run_call(c):
     """execute one call class; returns 'ok' or 'pyexc:<Type>'"""
     k = c["k"]
@@ -175,10 +199,19 @@ def _dispatch(k, c):
     elif k.startswith("grid."):
         shape = tuple(c["shape"])
         N = shape[0] * shape[1]
-        g = G.Grid("g", shape[1], shape[0], dtype=np.float64)
+        csz = CSZ[c.get("csz", "one")]
+        g = G.Grid("g", shape[1], shape[0], dtype=np.float64, cellsize=csz)
         g.data = np.arange(N, dtype=float).reshape(shape)
         m = k[5:]
-        if m == "coord2cell":
+        if m in ("coord2cell", "slice") and (c.get("cols", 2) != 2 or c.get("csz", "one") != "one" or c["p"] == "edge"):
+            pts = edge_points(n, c["p"], csz, shape[0], shape[1], c["cols"])
+            if m == "coord2cell":
+                cells_ = g.coord2cell(pts)
+                if np.any(cells_ >= N) or np.any(cells_ < -1):
+                    raise OutOfGrid("coord2cell returned a cell number outside the grid: an index the other kernels would dereference")
+            else:
+                g.slice(pts)
+        elif m == "coord2cell":
             g.coord2cell(points(n, c["p"]))
         elif m == "cell2coord":
             g.cell2coord(cells(N, c["c"]))
